@@ -226,7 +226,25 @@ def _enc_di(g):
     return out
 
 
+def _gen_graph(rng):
+    n = rng.choice([0, 1, 2, 3, 4, 5])
+    pairs = [(u, v) for u in range(1, n + 1) for v in range(u + 1, n + 1)]
+    rng.shuffle(pairs)
+    pairs = pairs[:rng.randint(0, len(pairs))]
+    return (n, [(v, u) if rng.random() < 0.3 else (u, v) for u, v in pairs])
+
+
+def _real_graph(g):
+    from cnfgen.graphs import Graph
+    n, es = g
+    G = Graph(n)
+    for u, v in es:
+        G.add_edge(u, v)
+    return G
+
+
 ABS = {
+    "AbsGraph": {"gen": _gen_graph, "real": _real_graph, "encode": _enc_di},
     "AbsDiGraph": {"gen": _gen_di, "real": _real_di, "encode": _enc_di},
     "AbsFormula": {"gen": lambda rng: rng.choice([0, 0, 1, 3, 7, 100, 2 ** 40]), "real": _formula,
                    "encode": lambda n: [n]},
@@ -513,6 +531,10 @@ HINTS = {
     ("BinaryPigeonholePrinciple", "holes"): lambda rng, ctx: rng.choice([0, 1, 2, 3, 4, 5, 8, 9, -1]),
     ("PigeonholePrinciple", "pigeons"): lambda rng, ctx: rng.choice([0, 1, 2, 3, 4, 5, -1]),
     ("PigeonholePrinciple", "holes"): lambda rng, ctx: rng.choice([0, 1, 2, 3, 4, -1]),
+    ("GraphOrderingPrinciple", "graph"): lambda rng, ctx: _gen_graph(rng),
+    ("GraphOrderingPrinciple", "knuth"): lambda rng, ctx: rng.choice([0, 0, 2, 3, 1, 5]),
+    ("OrderingPrinciple", "size"): lambda rng, ctx: rng.choice([0, 1, 2, 3, 4, 5, -1]),
+    ("OrderingPrinciple", "knuth"): lambda rng, ctx: rng.choice([0, 0, 2, 3, 1, 5]),
     ("RamseyNumber", "s"): lambda rng, ctx: rng.choice([1, 2, 3, 4, 0, -1]),
     ("RamseyNumber", "k"): lambda rng, ctx: rng.choice([1, 2, 3, 4, 5, 0]),
     ("RamseyNumber", "N"): lambda rng, ctx: rng.choice([0, 1, 2, 3, 4, 5, 6, -1]),
